@@ -1,6 +1,8 @@
 package main
 
 import (
+	"sort"
+	"os"
 	"fmt"
 	"go/token"
 	"go/types"
@@ -480,42 +482,79 @@ func checkC11(c *Ctx, r *Report) {
 				r.Undecided("C11-R1", base, in.Pos(), "provenance not analysable: "+why)
 				return
 			}
-			// (a) result-empty fallbacks
-			seen := map[string]bool{}
+			if os.Getenv("OLLACHECK_DEBUG") != "" {
+				fmt.Fprintln(os.Stderr, "DBG C11 prov root", pr.Root, "guards", sortedKeys(pr.Guards), "mixed", pr.Mixed, "fallback", pr.ResultFallback, "bypass", pr.SpecBypass)
+			}
+			// (a) result-empty fallbacks. A finding is identified by WHICH filtering is undone (the predicates lost) and by
+			// its ordinal among the distinct places that undo it — not by the name of the function it lives in, which an
+			// extract-function refactoring changes. A second fallback losing the same predicates is therefore a finding
+			// of its own (…#2) and is not hidden behind a known first one.
+			groups := map[string][]string{}
 			for _, fb := range pr.ResultFallback {
-				// identified by WHICH filtering is undone (the predicates lost), not by the function the fallback lives in
-				fnName := "without?"
+				lostName := "without?"
 				if i := strings.Index(fb, "(without ["); i >= 0 {
 					if j := strings.Index(fb[i:], "])"); j >= 0 {
-						fnName = "without[" + strings.ReplaceAll(fb[i+len("(without ["):i+j], " ", ",") + "]"
+						lostName = "without[" + strings.ReplaceAll(fb[i+len("(without ["):i+j], " ", ",") + "]"
 					}
 				}
-				if seen[fnName] {
-					continue
+				dup := false
+				for _, have := range groups[lostName] {
+					if have == fb {
+						dup = true
+					}
 				}
-				seen[fnName] = true
-				r.Bad("C11-R1", base+":result-empty-fallback:"+fnName, in.Pos(), "on the provider path a filter "+fb+": when no healthy endpoint of the requested provider exists, endpoints of other kinds are contacted")
+				if !dup {
+					groups[lostName] = append(groups[lostName], fb)
+				}
 			}
-			// (b) extra roots
+			for _, lostName := range sortedKeys(groups) {
+				sites := groups[lostName]
+				sort.Strings(sites)
+				for k, fb := range sites {
+					key := base + ":result-empty-fallback:" + lostName
+					if k > 0 {
+						key += fmt.Sprintf("#%d", k+1)
+					}
+					r.Bad("C11-R1", key, in.Pos(), "on the provider path a filter "+fb+": when no healthy endpoint of the requested provider exists, endpoints of other kinds are contacted")
+				}
+			}
+			// (b) extra roots: one finding per distinct call the foreign list comes from, identified by the callee and an
+			// ordinal among the distinct call sites of that callee
 			if len(pr.Mixed) > 0 {
-				var where []string
 				seenM := map[ssa.Value]bool{}
+				byCallee := map[string][]string{}
 				for _, m := range pr.Mixed {
 					if seenM[m] {
 						continue
 					}
 					seenM[m] = true
 					d := strings.TrimSpace(m.String())
+					src := "value"
 					pos := posOfValue(m)
+					var call *ssa.Call
 					if ex, ok := m.(*ssa.Extract); ok {
-						if call, ok := ex.Tuple.(*ssa.Call); ok {
-							d = "result of " + describeCall(&call.Call).String() + " in " + fname(call.Parent())
-							pos = call.Pos()
-						}
+						call, _ = ex.Tuple.(*ssa.Call)
+					} else if cl, ok := m.(*ssa.Call); ok {
+						call = cl
 					}
-					where = append(where, d+" @"+c.Pos(pos))
+					if call != nil {
+						d = "result of " + describeCall(&call.Call).String() + " in " + fname(call.Parent())
+						src = describeCall(&call.Call).Name
+						pos = call.Pos()
+					}
+					byCallee[src] = append(byCallee[src], d+" @"+c.Pos(pos))
 				}
-				r.Bad("C11-R1", base+":substituted-list", in.Pos(), "the provider-filtered list can be replaced by a list from another source (not a subset of the provider-filtered candidates): the provider constraint is lost", where...)
+				for _, src := range sortedKeys(byCallee) {
+					sites := byCallee[src]
+					sort.Strings(sites)
+					for k, site := range sites {
+						key := base + ":substituted-list:" + src
+						if k > 0 {
+							key += fmt.Sprintf("#%d", k+1)
+						}
+						r.Bad("C11-R1", key, in.Pos(), "the provider-filtered list can be replaced by a list from another source (not a subset of the provider-filtered candidates): the provider constraint is lost", site)
+					}
+				}
 			}
 			// (c) guard
 			if pr.guard("IsCompatibleWith") {
@@ -711,6 +750,8 @@ func checkC11(c *Ctx, r *Report) {
 	addMutants(
 		Mutant{Prop: "C11", Name: "provider-refine-fallback", File: "internal/app/handlers/handler_provider_common.go", Rule: "C11-R1", Canary: true,
 			Old: "		providerEndpoints = a.filterEndpointsByProfile(providerEndpoints, pr.profile, pr.requestLogger)\n	}", New: "		refined := a.filterEndpointsByProfile(providerEndpoints, pr.profile, pr.requestLogger)\n		if len(refined) == 0 {\n			refined = endpoints\n		}\n		providerEndpoints = refined\n	}"},
+		Mutant{Prop: "C11", Name: "capability-stage-refetches-healthy", File: "internal/app/handlers/handler_proxy.go", Rule: "C11-R1",
+			Old: "	if len(capableEndpoints) == 0 {\n		logger.Warn(\"No endpoints have models with required capabilities, using unfiltered\",", New: "	if len(capableEndpoints) == 0 && a.discoveryService != nil {\n		if healthy, herr := a.discoveryService.GetHealthyEndpoints(context.Background()); herr == nil {\n			for _, endpoint := range healthy {\n				if capableModels[endpoint.URLString] {\n					capableEndpoints = append(capableEndpoints, endpoint)\n				}\n			}\n		}\n	}\n	if len(capableEndpoints) == 0 {\n		logger.Warn(\"No endpoints have models with required capabilities, using unfiltered\","},
 		Mutant{Prop: "C11", Name: "provider-route-generic-handler", File: "internal/app/handlers/server_routes.go", Rule: "C11-R2",
 			Old: "	a.routeRegistry.RegisterProxyRoute(basePath, a.providerProxyHandler, prefix+\" proxy\", \"\")", New: "	a.routeRegistry.RegisterProxyRoute(basePath, a.proxyHandler, prefix+\" proxy\", \"\")"},
 		Mutant{Prop: "C11", Name: "compat-unknown-type-true", File: "internal/core/domain/routing.go", Rule: "C11-R3",
